@@ -49,6 +49,14 @@ impl State {
             return vec![];
         }
 
+        if let (Token::Comment(_), false) = (&token, self.token_this_line) {
+            // A line with only a comment is like an empty line, its indentation is insignificant
+            let mut res: Vec<Lex> = self.newlines.drain(..).collect();
+            res.push(Lex::new(self.pos, token.clone()));
+            self.pos = Lex::end_of(self.pos, &token);
+            return res;
+        }
+
         self.token_this_line = true;
         let mut res = self.newlines.pop().map_or(vec![], |nl| vec![nl]);
         let (line_level, cur_level) = (
